@@ -149,6 +149,17 @@ func c07CachedAndReplaced(mon *Mon, cur *SearchRecord) {
 	for _, thr := range []int{0, -30, cur.Opts.FuzzyThreshold, -5, 0, -100} {
 		run(thr, "cached-threshold-run")
 	}
+	// the same words with other inner spacing are a DIFFERENT pattern for the matcher (blanks are matched like any character):
+	// an entry cached for one spelling must not answer the other
+	if q := strings.TrimSpace(cur.Query); strings.Contains(q, " ") {
+		orig := cur.Query
+		i := strings.Index(q, " ")
+		for _, sp := range []string{"  ", " \t", "   "} {
+			cur.Query = q[:i] + sp + strings.TrimLeft(q[i:], " ")
+			run(0, "cached-inner-spacing-variant")
+		}
+		cur.Query = orig
+	}
 	repl := c03Clone(cur.DB.Commands)
 	for i, j := 0, len(repl)-1; i < j; i, j = i+1, j-1 {
 		repl[i], repl[j] = repl[j], repl[i]
